@@ -68,7 +68,7 @@ package dns
 //@   callsite "Write" octets: err == nil && (called("Pack") ? same(arg1, callres("Pack", 0)) : same(arg1, callres("TsigGenerateWithProvider", 0)))
 //@   stored at "out, co.tsigRequestMAC, err = TsigGenerateWithProvider(m, co.tsigProvider(), co.tsigRequestMAC, false)" mac: value == callres("TsigGenerateWithProvider", 1)
 //@   exit err: !called("Write") ==> ret0 != nil
-//@ func (*response).WriteMsg [C12 C11 C14]
+//@ func (*response).WriteMsg [C12 C11 C14 C15]
 //@   opt no-safety
 //@   requires w != nil && m != nil
 //@   callsite "TsigGenerateWithProvider" signed: arg0 == m && arg1 == w.tsigProvider && arg2 == w.tsigRequestMAC && arg3 == w.tsigTimersOnly && callres("IsTsig") != nil && !w.closed
